@@ -21,6 +21,7 @@ DOCS = [
     (u"d4", u"alfa alfa", 200, u"z", False),
     (u"d5", u"bravo alfa", None, u"x", None),
     (u"d6", u"alfa", 3, u"y", True),
+    (u"d7", u"alfa bravo charlie", 5, u"y", False),      # third document with n = 5, in the last segment: collapse evictions of a kept document of a non-first segment
 ]
 GHOST = (u"gg", u"alfa alfa alfa", 0, u"x", True)
 _S = {}
